@@ -41,6 +41,7 @@ type Clause struct {
 	Info  *types.Info
 	Olds  map[ast.Expr]bool // parenthesised sub-expressions that stood inside old(...)
 	Extra map[string]*types.Var
+	Real  map[string]types.Object // wrapper parameter name -> object of the real function
 	Name  string // e.g. ensures#2
 	Line  int
 	Pkg   *packages.Package
@@ -83,6 +84,8 @@ type Contract struct {
 	Line     int
 	File     string
 	raw      []rawClause
+	bindErr  error
+	bound    bool
 	Timeout  int
 	Pure     bool
 	Enums    []enumSpec
@@ -281,11 +284,16 @@ func (e *BindError) Error() string { return e.Msg }
 
 // Bind parses and type-checks the clauses of one contract.
 func (p *Program) Bind(c *Contract) error {
-	if c.raw == nil {
-		return nil
+	if c.bound {
+		return c.bindErr
 	}
+	c.bound = true
+	c.bindErr = p.bind(c)
+	return c.bindErr
+}
+
+func (p *Program) bind(c *Contract) error {
 	raw := c.raw
-	c.raw = nil
 	sig := c.Fn.Type().(*types.Signature)
 	loops := collectLoops(c.Decl)
 	nReq, nEns := 0, 0
@@ -490,28 +498,62 @@ func (p *Program) bindClauseTyped(c *Contract, rc rawClause, pos token.Pos, sig 
 		text = text[:loc[0]] + text[loc[0]+3:] // drop "old", keep "("
 		oldOffsets = append(oldOffsets, loc[0])
 	}
-	// wrapper parameters: resultN for unnamed results, __index/__value
+	// The clause is type-checked inside a wrapper function literal at file scope of the contract
+	// file (so that the imports of that file are visible). Receiver, parameters, named results and
+	// the locals in scope at pos become parameters of the wrapper, bound back by name.
 	var params []string
 	extra := map[string]*types.Var{}
+	real := map[string]types.Object{}
 	qual := func(other *types.Package) string {
 		if other == c.Pkg.Types {
 			return ""
 		}
 		return other.Name()
 	}
-	if post && sig.Results() != nil {
+	seen := map[string]bool{}
+	addParam := func(name string, t types.Type, obj types.Object) {
+		if name == "" || name == "_" || seen[name] {
+			return
+		}
+		seen[name] = true
+		params = append(params, fmt.Sprintf("%s %s", name, types.TypeString(t, qual)))
+		if obj != nil {
+			real[name] = obj
+		}
+	}
+	// locals first (inner shadows outer, locals shadow parameters)
+	if pos != token.NoPos && c.Decl.Body != nil && pos > c.Decl.Body.Lbrace+1 {
+		for _, v := range localsAt(c.Pkg.TypesInfo, c.Decl, pos) {
+			addParam(v.Name(), v.Type(), v)
+		}
+	}
+	if sig.Recv() != nil {
+		addParam(sig.Recv().Name(), sig.Recv().Type(), sig.Recv())
+	}
+	for i := 0; i < sig.Params().Len(); i++ {
+		pv := sig.Params().At(i)
+		t := pv.Type()
+		if sig.Variadic() && i == sig.Params().Len()-1 {
+			// variadic parameter is a slice inside the function
+		}
+		addParam(pv.Name(), t, pv)
+	}
+	if sig.Results() != nil {
 		for i := 0; i < sig.Results().Len(); i++ {
 			r := sig.Results().At(i)
 			if r.Name() == "" || r.Name() == "_" {
-				params = append(params, fmt.Sprintf("result%d %s", i, types.TypeString(r.Type(), qual)))
+				if post {
+					addParam(fmt.Sprintf("result%d", i), r.Type(), nil)
+				}
+			} else {
+				addParam(r.Name(), r.Type(), r)
 			}
 		}
 	}
 	if strings.Contains(text, "__index") {
-		params = append(params, "__index int")
+		addParam("__index", types.Typ[types.Int], nil)
 	}
 	if strings.Contains(text, "__value") {
-		// type unknown here; __value is rarely needed: treat as int-free by leaving to loop binding
 		return nil, fmt.Errorf("%s:%d: $value not supported", c.File, rc.line)
 	}
 	retType := "bool"
@@ -526,10 +568,8 @@ func (p *Program) bindClauseTyped(c *Contract, rc rawClause, pos token.Pos, sig 
 	}
 	info := &types.Info{Types: map[ast.Expr]types.TypeAndValue{}, Uses: map[*ast.Ident]types.Object{}, Defs: map[*ast.Ident]types.Object{},
 		Selections: map[*ast.SelectorExpr]*types.Selection{}, Implicits: map[ast.Node]types.Object{}}
-	if pos == token.NoPos {
-		pos = c.Decl.Pos()
-	}
-	if err := types.CheckExpr(p.Fset, c.Pkg.Types, pos, expr, info); err != nil {
+	cpos := p.contractFilePos(c.Pkg)
+	if err := types.CheckExpr(p.Fset, c.Pkg.Types, cpos, expr, info); err != nil {
 		return nil, &BindError{fmt.Sprintf("%s:%d: clause does not type-check in %s: %v [%s]", c.File, rc.line, c.Key, err, rc.text)}
 	}
 	fl := expr.(*ast.FuncLit)
@@ -562,7 +602,7 @@ func (p *Program) bindClauseTyped(c *Contract, rc rawClause, pos token.Pos, sig 
 			return nil, fmt.Errorf("%s:%d: internal: could not locate old(...) markers (%d of %d)", c.File, rc.line, len(olds), len(oldOffsets))
 		}
 	}
-	return &Clause{Kind: rc.kind, Text: rc.text, Expr: inner, Info: info, Olds: olds, Extra: extra, Name: name, Line: rc.line, Pkg: c.Pkg, Tags: tags}, nil
+	return &Clause{Kind: rc.kind, Text: rc.text, Expr: inner, Info: info, Olds: olds, Extra: extra, Real: real, Name: name, Line: rc.line, Pkg: c.Pkg, Tags: tags}, nil
 }
 
 // desugarImplies rewrites a ==> b (lowest precedence, right associative) into !(a) || (b).
@@ -638,4 +678,35 @@ func desugarImplies(s string) string {
 		i++
 	}
 	return out.String()
+}
+
+// contractFilePos: a position at file scope of the package's contract file.
+func (p *Program) contractFilePos(pkg *packages.Package) token.Pos {
+	for i, f := range pkg.Syntax {
+		if filepath.Base(pkg.CompiledGoFiles[i]) == "verif_contracts.go" {
+			return f.Name.End()
+		}
+	}
+	return token.NoPos
+}
+
+// localsAt: local variables of decl visible at pos (innermost first).
+func localsAt(info *types.Info, decl *ast.FuncDecl, pos token.Pos) []*types.Var {
+	fscope := info.Scopes[decl.Type]
+	if fscope == nil {
+		return nil
+	}
+	inner := fscope.Innermost(pos)
+	var out []*types.Var
+	for s := inner; s != nil && s != fscope.Parent(); s = s.Parent() {
+		if s == fscope {
+			break // parameters and results are added by the caller
+		}
+		for _, n := range s.Names() {
+			if v, ok := s.Lookup(n).(*types.Var); ok && v.Pos() < pos {
+				out = append(out, v)
+			}
+		}
+	}
+	return out
 }
